@@ -67,6 +67,7 @@ def case_strategy(draw):
                 negate=draw(st.sampled_from([False, False, True])),
                 layout=draw(st.sampled_from(['C', 'F', 'T'])), arms=draw(st.sampled_from([None, None, None, 5, 20, 60])) if nexp >= 2 else None,
                 hole=(draw(st.sampled_from([None, None, None, [draw(st.integers(30, n - 40)), draw(st.sampled_from([12, 5, 30]))]])) if nexp == 1 else None),
+                lowrun=draw(st.sampled_from([None, None, [draw(st.integers(40, n - 60)), draw(st.sampled_from([10, 8, 14]))]])),
                 iso=(draw(st.sampled_from([None, None, [draw(st.integers(20, n - 20)), draw(st.sampled_from([1, 2]))]])) if nexp >= 2 else None))
 
 
@@ -95,6 +96,11 @@ def build(case):
         iv = np.full(n, 1 / sig ** 2)
         if case['ivar_kind'] == 'smooth':
             iv = iv * (1 + 0.3 * np.sin(k / 17.0 + e))
+        if case.get('lowrun') and case['nexp'] == 1 and abs(case['scale']) <= 2.0:
+            # round 12: a run of pixels that are good but carry hardly any weight (5e-9 of their neighbours', still well above the absolute
+            # floor of the routine): they are data - the spline is fitted there and the output has their weight
+            p_, m_ = case['lowrun']
+            iv[p_:p_ + m_] = 2e-6
         if case['fam'] in ('noisy', 'spike'):
             fl = fl + rng.normal(0, 1, n) / np.sqrt(iv) * 0.7
         if case['fam'] == 'spike':
